@@ -1554,8 +1554,23 @@ class Exec:
         if op == ",":
             self.eval(a_n)
             return self.eval(b_n)
+        if op == "/":
+            # the array-length idiom sizeof(a) / sizeof(a[0]): independent of the element's layout
+            lt, rt = self._sizeof_arg(a_n), self._sizeof_arg(b_n)
+            if lt is not None and rt is not None and lt.kind == "array" and lt.elem == rt:
+                return Val(CT("int", 64, False, index=True), "I", str(lt.count))
         a, b = self.eval(a_n), self.eval(b_n)
         return self.binop(op, a, b, ct)
+
+    def _sizeof_arg(self, n: dict) -> typing.Optional[CT]:
+        while n.get("kind") in ("ParenExpr", "ImplicitCastExpr") and n.get("inner"):
+            n = n["inner"][0]
+        if n.get("kind") != "UnaryExprOrTypeTraitExpr" or n.get("name") != "sizeof":
+            return None
+        try:
+            return self.e.types.parse(n["argType"] if "argType" in n else n["inner"][0]["type"])
+        except COutOfSubset:
+            return None
 
     def e_CompoundAssignOperator(self, n: dict) -> typing.Any:
         op = n["opcode"][:-1]
